@@ -21,6 +21,10 @@ MODEL_MAX_REQUESTS = 6
 FOREVER = 1e6
 
 
+class StopConsumer(BaseException):
+    """thrown into a stream generator by its consumer (not an Exception: like KeyboardInterrupt or CancelledError)"""
+
+
 class WorkErr(Exception):
     def __init__(self, r):
         super().__init__(r)
@@ -63,7 +67,11 @@ def gen_case(rng: random.Random, tier: str, bias: str = ''):
                 items.append(dict(r=r, dur=rng.choice([0, 1, 2, 4]), fail=rng.random() < 0.15))
                 r += 1
             callers.append(dict(kind='stream', items=items, rexc=rng.random() < 0.6,
-                                stop_after=rng.randrange(1, n + 1) if rng.random() < 0.4 else None))
+                                stop_after=rng.randrange(1, n + 1) if rng.random() < (0.6 if bias == 'abandon' else 0.4) else None,
+                                # how the consumer stops early: close() | an exception thrown into the generator at
+                                # its yield (what Ctrl-C or Thread.throw amounts to) | (async) the consuming task is
+                                # cancelled while it waits for the next result
+                                stop_mode=rng.choice(['close', 'close', 'throw', 'cancel'])))
     early = rng.choice([0.0, 0.02, 0.05, 0.1]) if bias != 'abandon' else rng.choice([0.03, 0.08, 0.15])
     ch = rng.choice([('random', early), ('random', early), ('sticky', 0.2, early), ('sticky', 0.05, early),
                      ('pct', 2, 600, early), ('pct', 3, 600, early)])
@@ -160,19 +168,46 @@ def run_case(case):
                     endk = 'end'
                     try:
                         gen = srv.stream(data(), return_x=True, return_exceptions=spec['rexc'], timeout=FOREVER)
-                        async for x, y in gen:
-                            if isinstance(y, WorkErr):
-                                got.append((x[0], ('err', y.r)))
-                                log(('outcome', x[0], 'err', y.r))
-                            elif isinstance(y, tuple) and len(y) == 2 and y[0] == 'y':
-                                got.append((x[0], ('ok', y[1])))
-                                log(('outcome', x[0], 'ok', y[1]))
-                            else:
-                                got.append((x[0], ('other', repr(y))))
-                            if spec['stop_after'] is not None and len(got) == spec['stop_after']:
-                                await gen.aclose()
+                        mode = spec.get('stop_mode', 'close')
+                        reached = asyncio.Event()
+
+                        async def consume():
+                            async for x, y in gen:
+                                if isinstance(y, WorkErr):
+                                    got.append((x[0], ('err', y.r)))
+                                    log(('outcome', x[0], 'err', y.r))
+                                elif isinstance(y, tuple) and len(y) == 2 and y[0] == 'y':
+                                    got.append((x[0], ('ok', y[1])))
+                                    log(('outcome', x[0], 'ok', y[1]))
+                                else:
+                                    got.append((x[0], ('other', repr(y))))
+                                if spec['stop_after'] is not None and len(got) == spec['stop_after']:
+                                    if mode == 'cancel':
+                                        reached.set()       # go on asking for the next result; the task is cancelled meanwhile
+                                        continue
+                                    if mode == 'throw':
+                                        try:
+                                            await gen.athrow(StopConsumer())
+                                        except StopConsumer:
+                                            return 'closed'
+                                        return ('other', 'athrow returned')
+                                    await gen.aclose()
+                                    return 'closed'
+                            return 'end'
+
+                        if mode == 'cancel' and spec['stop_after'] is not None:
+                            task = asyncio.ensure_future(consume())
+                            w = asyncio.ensure_future(reached.wait())
+                            await asyncio.wait([task, w], return_when=asyncio.FIRST_COMPLETED)
+                            w.cancel()
+                            if not task.done():
+                                task.cancel()
+                            try:
+                                endk = await task
+                            except asyncio.CancelledError:
                                 endk = 'closed'
-                                break
+                        else:
+                            endk = await consume()
                     except WorkErr as e:
                         endk = ('err', e.r)
                         log(('outcome', e.r, 'err', e.r))
@@ -265,6 +300,13 @@ def run_case(case):
                             else:
                                 got.append((x[0], ('other', repr(y))))
                             if spec['stop_after'] is not None and len(got) == spec['stop_after']:
+                                if spec.get('stop_mode', 'close') in ('throw', 'cancel'):
+                                    try:
+                                        gen.throw(StopConsumer())
+                                        endk = ('other', 'throw returned')
+                                    except StopConsumer:
+                                        endk = 'closed'
+                                    break
                                 gen.close()
                                 endk = 'closed'
                                 break
@@ -358,8 +400,16 @@ def run_case(case):
                 break
             exp.append((it['r'], o))
         if spec['stop_after'] is not None and spec['stop_after'] <= len(exp):
-            exp = exp[:spec['stop_after']]
-            expend = 'closed'
+            if case['kind'] == 'async' and spec.get('stop_mode') == 'cancel' and endk in ('closed', expend) \
+                    and len(got) >= spec['stop_after']:
+                # the cancellation lands somewhere after the stop_after-th result: any longer prefix is fine, and
+                # so is the regular ending if the stream got there first
+                if endk == 'closed':
+                    exp = exp[:len(got)]
+                    expend = 'closed'
+            else:
+                exp = exp[:spec['stop_after']]
+                expend = 'closed'
         if got != exp or endk != expend:
             mon.append(dict(prop='C02', rule='stream-output', detail=f'got {got} end {endk}; expected {exp} end {expend}'))
     for r, cnt in st['calls'].items():
